@@ -27,6 +27,8 @@ type rdField struct {
 	Ptr   bool   `json:"ptr,omitempty"`
 	// Listed: the field is expected to be answered by the type's own switch
 	Listed bool `json:"listed,omitempty"`
+	// Also: a second name declared by the same field (`F1, G1 int`): both share the doc
+	Also string `json:"also,omitempty"`
 }
 
 type rdType struct {
@@ -137,6 +139,9 @@ func genRDPkg(t *rapid.T, idx int) rdPkg {
 					f.Doc = genDoc(t, f.Name, false)
 					f.Listed = true
 					hasExported = true
+					if !strings.Contains(f.Type, "[") && rapid.IntRange(0, 4).Draw(t, "multiname") == 0 {
+						f.Also = fmt.Sprintf("G%d", fieldN)
+					}
 				case k == 5:
 					f.Name = fmt.Sprintf("f%d", fieldN) // unexported
 					f.Type = "int"
@@ -233,7 +238,11 @@ func (p rdPkg) source() string {
 					}
 					continue
 				}
-				fmt.Fprintf(b, "\t%s %s\n", f.Name, f.Type)
+				if f.Also != "" {
+					fmt.Fprintf(b, "\t%s, %s %s\n", f.Name, f.Also, f.Type)
+				} else {
+					fmt.Fprintf(b, "\t%s %s\n", f.Name, f.Type)
+				}
 			}
 			b.WriteString("}\n")
 		case "scalar":
@@ -365,6 +374,11 @@ func (p rdPkg) answers(ty *rdType, into map[string][]string, listedOnly map[stri
 		if f.Listed {
 			if _, dup := into[f.Name]; !dup {
 				into[f.Name] = expectedDoc(f.Doc, f.Name, false)
+			}
+			if f.Also != "" {
+				if _, dup := into[f.Also]; !dup {
+					into[f.Also] = expectedDoc(f.Doc, f.Also, false)
+				}
 			}
 		} else {
 			listedOnly[f.Name] = true
